@@ -273,33 +273,26 @@ Lemma on_done_inv c s cur started o :
 Proof.
   intros C B. pose proof (bonus_cur_le1 cur) as L1.
   assert (B1 : Bal 1 s) by (eapply Bal_mono; [exact L1|exact B]).
+  assert (EP : Inv (exit_loop (push s (partial_of cur)))).
+  { apply exit_loop_inv; [apply Core_push; exact C|apply Bal_push; exact B1]. }
+  assert (EC : Inv (exit_loop (do_close (if started then push s (partial_of cur) else s)))).
+  { apply exit_loop_inv.
+    - apply Core_do_close. destruct started; [apply Core_push|]; exact C.
+    - eapply Bal_frame; [..|exact B1]; destruct started; reflexivity. }
   unfold on_done. destruct o as [keep status| |status| | | | ].
   - apply finish_fresh_inv; assumption.
   - destruct started.
-    + destruct (closed s).
-      * apply exit_loop_inv; [apply Core_push; exact C|apply Bal_push; exact B1].
-      * apply payload_check_inv.
-        -- apply Core_set_ka, Core_push; exact C.
-        -- apply Bal_set_ka, Bal_push; exact B.
-        -- intros ->. reflexivity.
-    + apply payload_check_inv.
-      * apply Core_set_ka; exact C.
-      * apply Bal_set_ka; exact B.
+    + destruct (closed s); [exact EP|].
+      apply payload_check_inv.
+      * apply Core_set_ka, Core_push; exact C.
+      * apply Bal_set_ka, Bal_push; exact B.
       * intros ->. reflexivity.
-  - apply finish_fresh_inv; assumption.
-  - destruct started.
-    + apply exit_loop_inv; [apply Core_push; exact C|apply Bal_push; exact B1].
     + apply finish_fresh_inv; assumption.
-  - destruct started.
-    + apply exit_loop_inv; [apply Core_push; exact C|apply Bal_push; exact B1].
-    + apply finish_fresh_inv; assumption.
-  - apply exit_loop_inv.
-    + apply Core_do_close. destruct started; [apply Core_push|]; exact C.
-    + eapply Bal_frame; [..|exact B1]; destruct started; reflexivity.
-  - apply payload_check_inv.
-    + apply Core_set_ka. destruct started; [apply Core_push|]; exact C.
-    + apply Bal_set_ka. destruct started; [apply Bal_push|]; exact B.
-    + intros ->. reflexivity.
+  - destruct started; [exact EP|apply finish_fresh_inv; assumption].
+  - destruct started; [exact EP|apply finish_fresh_inv; assumption].
+  - destruct started; [exact EP|apply finish_fresh_inv; assumption].
+  - exact EC.
+  - exact EC.
 Qed.
 
 Lemma deliver_inv s tits : Inv s -> Inv (deliver s tits).
@@ -454,12 +447,12 @@ Proof.
   - apply FF; exact C3.
   - destruct sd.
     + destruct (closed s) eqn:Cs; [apply EX; cbn; congruence|]. cbn [payload_check]. apply AR; [cbn; congruence|reflexivity].
-    + cbn [payload_check]. apply AR; [cbn; congruence|reflexivity].
-  - apply FF; exact C3.
+    + apply FF; exact C3.
+  - destruct sd; [apply EX; cbn; congruence|apply FF; exact C3].
   - destruct sd; [apply EX; cbn; congruence|apply FF; exact C3].
   - destruct sd; [apply EX; cbn; congruence|apply FF; exact C3].
   - apply EX. destruct sd; reflexivity.
-  - cbn [payload_check]. apply AR; [destruct sd; cbn; congruence|reflexivity].
+  - apply EX. destruct sd; reflexivity.
 Qed.
 
 (* ... and when the application answers it the way web.Application does (HTTPBadRequest raised by the
